@@ -1316,7 +1316,12 @@ class Executor:
                         if isinstance(lst, Exc):
                             outs.append((st2, lst))
                         elif lst.sort == 'TList':
-                            outs.append((st2, SV('TList', '(%s %s %s)' % (c.maps, lst.e, st2.comp['store']))))
+                            for r in c.requires:
+                                if c.ghost.get('maps_requires'):
+                                    self.oblige(st2, 'requires.%s.elementwise' % c.name.split('.')[-1],
+                                                self.fmt_c(c.ghost['maps_requires'], {'l': lst.e, 'S': st2.comp['store']}), 'pre')
+                                    break
+                            outs.append((st2, SV(c.ghost.get('maps_sort', 'TList'), '(%s %s %s)' % (c.maps, lst.e, st2.comp['store']))))
                         else:
                             raise OutOfSubset('comprehension over %s' % lst.sort, e)
                     return outs
@@ -1534,6 +1539,9 @@ class Executor:
             ex[pn] = a.e if a.e is not None else ''
             for mk, mv in a.meta.items():
                 if isinstance(mv, str):
+                    ex['%s.%s' % (pn, mk)] = mv
+            if self.theory:
+                for mk, mv in (self.theory.contract_views(self, a, st) or {}).items():
                     ex['%s.%s' % (pn, mk)] = mv
         if 'store' in st.comp:
             ex['S0'] = st.comp['store']
